@@ -170,6 +170,23 @@ def run(chk):
     run_scenarios(chk, 'an apply worker killed inside its task and replaced: ids and state of the instances (DetSim)', ks, {'C13'},
                   nontrivial=lambda sc, o: bool(o.get('injected')), dist=lambda sc, o: {'n_jobs': sc['pool']['n_jobs'], 'victim': sc['inject'][0]['victim']})
 
+    # apply tasks that overrun their time limit: a process worker is interrupted and goes on with the next task, a worker thread cannot be
+    # interrupted and goes on when its function returns — either way it is the same instance afterwards, with the id and the state object it had
+    at = []
+    for _ in range(40 if chk.tier == 'quick' else 600):
+        nj = rng.choice([1, 1, 2])
+        sm = rng.choice(['fork', 'threading'])
+        k = rng.randint(3, 6)
+        slow = rng.sample(range(k - 1), rng.randint(1, 2))
+        at.append({'seed': rng.randint(0, 10 ** 6), 'pool': {'n_jobs': nj, 'start_method': sm, 'pass_worker_id': rng.random() < .6, 'use_worker_state': True,
+                                                           'shared_objects': rng.random() < .4}, 'relax_shape': True,
+                   'ops': [{'op': 'apply_batch', 'tasks': [{'idx': i} for i in range(k)], 'init': True, 'exit': True, 'task_timeout': 0.2, 'get_timeout': 60,
+                            'dur': {'kind': 'map', 'map': {str(i): (5.0 if sm == 'fork' else rng.choice([0.5, 0.8])) for i in slow}, 'default': 0.01}},
+                           {'op': 'apply_batch', 'tasks': [{'idx': i} for i in range(nj + 1)], 'init': True, 'exit': True, 'dur': {'kind': 'map', 'map': {}, 'default': 0.01}, 'get_timeout': 60},
+                           {'op': 'stop_and_join'}]})
+    run_scenarios(chk, 'apply tasks that overrun their limit, then more tasks on the same workers: ids and state of the instances (DetSim)', at, {'C13'},
+                  nontrivial=lambda sc, o: True, dist=lambda sc, o: {'n_jobs': sc['pool']['n_jobs'], 'start': sc['pool']['start_method']})
+
     def search():
         extra = id_scenarios(random.Random(chk.seed * 29 + 1), 800)
         for sc, o in zip(extra, run_scenarios(chk, 'search', extra, {'C13'})):
